@@ -135,7 +135,14 @@ func (s *state) unmarshal(data []byte, fixItem fix.Item) error {
 		}
 
 		cnt := noKv.Value.Value().(int)
-		startNoTag := bytes.Index(data, append([]byte(noKv.Key), '='))
+		// The count field is recognised only at a field boundary.
+		noTagField := append([]byte(noKv.Key), '=')
+		startNoTag := -1
+		if bytes.HasPrefix(data, noTagField) {
+			startNoTag = 0
+		} else if i := bytes.Index(data, append([]byte{1}, noTagField...)); i != -1 {
+			startNoTag = i + 1
+		}
 		if startNoTag == -1 {
 			return nil
 		}
